@@ -36,6 +36,7 @@ RULE += (" A quarter of the rules has two conditions; a quarter of the streams d
 RULE += (" Rules have an id and a name, only a name or only an id; rule lists mix ids and names in both orders.")
 RULE += (" Filter documents stand at the end of the stream or between the rule documents (also directly before an action: repeat document).")
 RULE += (" Detection bodies of rules and filters come in the shapes rules are written in: one map, a map with two items, a list of maps, a value list.")
+RULE += (" One case in five loads the stream with error collection and gives one rule a cosmetic fault (invalid status / level / date / tag): the rule is filtered like any other.")
 RULE += (" A third of the cases also load the filters once as objects and apply them (apply_filters) to two freshly loaded copies of the rules in turn: both conversions equal the one of the stream and the filter objects serialise as before.")
 ASSUMPTIONS = [
     "vf/ref is the specification of rule and filter conditions; atoms independent",
@@ -88,13 +89,13 @@ def filter_formula(flt: dict):
     return rc.parse_condition(f["condition"], names, leaf)[0]
 
 
-def _convert(docs, rseed, pipeline_suffix):
+def _convert(docs, rseed, pipeline_suffix, collect=False):
     from sigma.collection import SigmaCollection
     from sigma.processing.pipeline import ProcessingPipeline
 
     random.seed(rseed)
     # independent documents (no dict shared between two documents, as after parsing a YAML stream)
-    coll = SigmaCollection.from_dicts(json.loads(json.dumps(docs)))
+    coll = SigmaCollection.from_dicts(json.loads(json.dumps(docs)), collect_errors=collect)
     pipeline = None
     if pipeline_suffix:
         pipeline = ProcessingPipeline.from_dict({"transformations": [{"type": "field_name_suffix", "suffix": pipeline_suffix}]})
@@ -132,6 +133,8 @@ def check_case(case: dict) -> Outcome:
     out = Outcome()
     rules, filters, rseed = case["rules"], case["filters"], case["rseed"]
     suffix = case.get("suffix") or ""
+    if case.get("collect_errors"):
+        out.label("error-collecting-load-with-cosmetic-fault")
     cfg = full_cfg(CFG)
     # 'action: repeat' documents: the previous rule document merged with the overrides (deprecated but
     # supported collection form); expectations use the merged document
@@ -199,8 +202,8 @@ def check_case(case: dict) -> Outcome:
         out.label("some-rule-not-targeted")
     special = "special-filter-name" if "filter-name-special" in out.labels else "plain-names"
     try:
-        got = _convert(stream, rseed, suffix)
-        base = _convert(rules, rseed, suffix)
+        got = _convert(stream, rseed, suffix, bool(case.get("collect_errors")))
+        base = _convert(rules, rseed, suffix, bool(case.get("collect_errors")))
     except (SigmaError, NotImplementedError) as e:
         import re as _re
         what = "filter-detection-undefined" if _re.search(r"Detection '_filt_[a-z]{10}_", str(e)) else ("no-condition" if "at least one condition" in str(e) else "other")
@@ -241,7 +244,7 @@ def check_case(case: dict) -> Outcome:
             if "correlation" in r:
                 continue
             try:
-                alone = _convert([r] + filters, rseed, suffix)
+                alone = _convert([r] + filters, rseed, suffix, bool(case.get("collect_errors")))
             except (SigmaError, NotImplementedError):
                 continue
             if alone.get(r["title"]) != got.get(r["title"]):
@@ -260,7 +263,7 @@ def check_case(case: dict) -> Outcome:
             before = [f.to_dict() for f in fobjs]
             for round_ in (1, 2):
                 random.seed(rseed + round_)
-                coll = SigmaCollection.from_dicts(json.loads(json.dumps(rules)))
+                coll = SigmaCollection.from_dicts(json.loads(json.dumps(rules)), collect_errors=bool(case.get("collect_errors")))
                 coll.apply_filters(fobjs)
                 pipeline = ProcessingPipeline.from_dict({"transformations": [{"type": "field_name_suffix", "suffix": suffix}]}) if suffix else None
                 per_rule = {}
@@ -348,6 +351,14 @@ def cases(draw):
         filters.append({"title": f"flt{j}", "logsource": draw(st.sampled_from(LOGSOURCES)), "filter": fd})
     case = {"rules": rules, "filters": filters, "rseed": draw(st.integers(0, 10 ** 6)),
             "suffix": draw(st.sampled_from(["", "", "_m"]))}
+    if draw(st.integers(0, 3)) == 0:
+        # error-collecting load: a rule with a merely cosmetic fault (status / level / date / tag that is not valid) keeps
+        # the fault in its error list, is a rule like any other and is filtered like any other
+        k = draw(st.integers(0, len(rules) - 1))
+        if "correlation" not in rules[k] and "_repeat" not in rules[k]:
+            key, val = draw(st.sampled_from([("status", "bogus"), ("level", "nonsense"), ("date", "not a date"), ("tags", ["no_namespace"])]))
+            rules[k][key] = val
+            case["collect_errors"] = True
     if draw(st.integers(0, 3)) == 0:
         case["global_product"] = draw(st.sampled_from(["win", "linux", "other"]))
     if draw(st.integers(0, 2)) == 0:
